@@ -120,6 +120,118 @@ CHECKS = {
         "must raise. Exhaustive within the stated bounds.",
         note="Positions tracked from boxes/offsets by the harness.",
         ref="5/C10"),
+    "C11": dict(
+        technique="property-based testing: differential against tket's own "
+        "gate unitaries and a numpy reference product",
+        text="Single gates at generated phases are compared with "
+        "pytket Op.get_unitary(); generated pure circuits (named gates, "
+        "rotations, controlled rotations, Controlled(g), kets/bras, scalars, "
+        "daggers) with the product of the embedded reference matrices by an "
+        "evaluator that shares no code with the library; unitarity; dagger = "
+        "conjugate transpose; rewire for all a != b. Exploration.",
+        note="Literal layout reading fixed in DESIGN.md C11; tolerance 1e-9; "
+        "pytket trusted.", ref="5/C11"),
+    "C12": dict(
+        technique="property-based testing + exhaustive box variants: "
+        "differential against an independent density-matrix reference",
+        text="Mixed evaluation of generated classical-quantum circuits (all "
+        "Measure/Encode flag combinations, discards, mixed states, classical "
+        "gates, scalars, bit/qubit swaps) is compared entry by entry with a "
+        "reference written from the textbook definitions; pure circuits "
+        "against the doubling of their pure evaluation; trace-preserving "
+        "circuits: get_counts / measure / evaluation give one probability "
+        "distribution; Born rule and marginals. Exploration.",
+        note="Reference O6 independent of CQMap.tensor; tolerance 1e-9.",
+        ref="5/C12"),
+    "C13": dict(
+        technique="property-based testing: translation round trips against "
+        "an exact tket command-list simulator",
+        text="Generated exportable circuits are exported with to_tk, run on "
+        "an exact simulator that uses tket's own gate unitaries, post-"
+        "selected / scaled / post-processed as recorded, and compared with "
+        "the circuit's mixed evaluation and with the independent reference; "
+        "eval and get_counts through an exact fake backend; from_tk(to_tk(c)); "
+        "generated tket circuits imported and compared with the simulator "
+        "and with tket's statevector. Exploration.",
+        note="Four known findings (register bookkeeping, Controlled(Y)) are "
+        "listed and their trigger classes excluded by construction.",
+        ref="5/C13"),
+    "C14": dict(
+        technique="property-based testing: metamorphic (subs/eval commute, "
+        "lambdify = subs) plus a spec-side substituted reference",
+        text="Symbolic circuits, tensor diagrams and ZX diagrams with "
+        "generated substitution plans (numbers, symbols, expressions, lists, "
+        "partial then full): substitute-then-evaluate and evaluate-then-"
+        "substitute are both compared with the reference evaluation of the "
+        "spec in which every expression was replaced by its number; "
+        "structure, dagger flags and mixedness preserved; free symbols "
+        "exact. Exploration.", note="sympy trusted; tolerance 1e-8.",
+        ref="5/C14"),
+    "C15": dict(
+        technique="property-based testing: symbolic differentiation of the "
+        "evaluation vs evaluated gradient, plus numeric central differences "
+        "of an independent reference",
+        text="For generated parametrised circuits (pure and default "
+        "gradients), tensor diagrams (with bubbles) and jacobians, the "
+        "evaluated formal sum is compared at generated points with the sympy "
+        "derivative of the library's symbolic evaluation and with a fourth-"
+        "order central difference of the independent reference evaluators. "
+        "Exploration.", note="Real symbols; one known finding "
+        "(Scalar.grad ignores mixed, pinned by the test suite).",
+        ref="5/C15"),
+    "C16": dict(
+        technique="property-based testing + exhaustive gate table: "
+        "differential between circuit evaluation and the standard ZX "
+        "interpretation of the translated diagram",
+        text="circuit2zx images are read back box by box and interpreted by "
+        "an independent ZX semantics; they must be proportional (one non-"
+        "zero factor) to the circuit's reference and library evaluation, "
+        "with equal arity; every gate at 17 phases; dagger of arbitrary ZX "
+        "diagrams = conjugate transpose. Exploration.",
+        note="O8 and O4 are harness code; tolerance 1e-9.", ref="5/C16"),
+    "C17": dict(
+        technique="property-based testing: differential against pyzx's own "
+        "tensor semantics through a harness-side adapter",
+        text="Generated simple ZX diagrams are exported and the pyzx matrix "
+        "of the graph (scalar preserved) compared with the independent ZX "
+        "semantics; re-import must be well-typed with equal arities and the "
+        "same matrix up to scalar boxes; generated simple pyzx graphs in "
+        "random vertex order are imported and compared with pyzx; ill-"
+        "declared boundaries must raise ValueError. Exploration.",
+        note="The installed pyzx is newer than the targeted one: an in-"
+        "process adapter bridges the API (DESIGN.md O9).", ref="5/C17"),
+    "C18": dict(
+        technique="property-based testing: validity predicates on parser / "
+        "generator outputs, independent type translation",
+        text="eager_parse and brute_force outputs must be the given words in "
+        "order followed by cups of adjacent adjoints with the target as "
+        "codomain (and only exist when a reduction exists, decided by "
+        "exhaustive search); CFG sentences must be derivations within the "
+        "requested bounds; biclosed2rigid must map rule boxes, curryings and "
+        "CCG trees over nested slash types to diagrams whose types equal the "
+        "harness's own translation. Exploration.",
+        note="brute_force is bounded by counting parse attempts.",
+        ref="5/C18"),
+    "C19": dict(
+        technique="property-based testing + exhaustive small widths: "
+        "differential against a string-term interpreter",
+        text="Generated cartesian diagrams over formal-term functions are "
+        "called on symbolic inputs and compared with an interpreter that "
+        "splices outputs by offsets; Swap/Copy/Discard for all widths <= 4; "
+        "naturality of swap, copy, discard; wrong input lengths must raise. "
+        "Exploration.", note="Inputs are strings, never tuples.",
+        ref="5/C19"),
+    "C20": dict(
+        technique="property-based testing: geometric validity predicates on "
+        "the computed layout; rendering smoke runs; round trip through the "
+        "function-call syntax",
+        text="For generated diagrams the drawing graph must have exactly one "
+        "node per input/output/box/port, edges equal to an independently "
+        "scanned wiring, downward edges, vertical wires, strictly increasing "
+        "open wires and boxes strictly between their neighbours; both back-"
+        "ends must render; diagramize of a generated body must equal the "
+        "original. Exploration.", note="Coordinates compared exactly.",
+        ref="5/C20"),
     "C05": dict(
         technique="property-based testing (Hypothesis) + exhaustive small-"
         "scope enumeration against a model interchange and an exact "
